@@ -12,6 +12,7 @@ import Rare.Proofs.C01Flags
 import Rare.Proofs.C01Unbuffered
 import Rare.Proofs.C01Chunk
 import Rare.Proofs.C01Colour
+import Rare.Proofs.C01Readers
 import Rare.Model.C01Source
 import Rare.Gen.C01
 /-!
@@ -831,6 +832,61 @@ example :
     determineErrorState 1 (some 5) 0 = some ("Read errors", 2) ∧ determineErrorState 0 (some 1) 7 = some ("Parse errors", 2) ∧
     determineErrorState 0 (some 0) 0 = some ("", 1) ∧ determineErrorState 0 none 0 = some ("", 1) ∧
     determineErrorState 0 none 1 = none ∧ exitCode 0 none 3 = 0 ∧ exitCode 2 none 3 = 2 := by decide
+
+/-- **Everything a user observes of a complete run is a function of the delivered input alone.**  For EVERY command
+    line the usage guards accept (`--batch-buffer >= 1`: buffered system; `= 0`: rendezvous system), files or stdin,
+    every extractor configuration, every behaviour of every source's reader (chunking, stalls, faults, failed open),
+    every flush-timer behaviour: some execution reaches the end of the stream, and in EVERY execution that does
+    (every interleaving of readers, workers and the consumer) the consumer has received exactly the sequentially
+    matched lines, the stderr line `Matched: M / R (Ignored: I)` is byte for byte the line of the sequential totals,
+    and the exit code is 2 / 1 / 0 for "a source failed" / "nothing matched" / otherwise. -/
+theorem cli_run_observables (f : Flags) (input : Input) (cfg : PipeCfg) (hc : configure f input = .ok cfg)
+    (e : Extractor) (srcs : List SrcIn) (timer : Nat → Nat → Bool)
+    (hnp : NoPanic e (allLines (srcs.map deliveredOf))) (fmt : Bool) :
+    let s0 := init (scannedInputs cfg.batch srcs timer) cfg.W
+    let ls := allLines (srcs.map deliveredOf)
+    let ms := ls.filter (outcomeIs e .matched)
+    let ig := ls.filter (outcomeIs e .ignored)
+    let Final : St Line → Prop := fun s =>
+      s.consumed.Perm ms ∧
+      summaryLine fmt false s.nMatched s.nRead s.nIgnored = summaryLine fmt false ms.length ls.length ig.length ∧
+      exitCode (readErrors srcs) none s.nMatched = (if readErrors srcs > 0 then 2 else if ms = [] then 1 else 0)
+    (1 ≤ f.batchBuffer →
+      (∃ s, Reach (clsOf e) cfg.R cfg.B cfg.K s0 s ∧ s.consDone = true) ∧
+      ∀ s, Reach (clsOf e) cfg.R cfg.B cfg.K s0 s → s.consDone = true → Final s) ∧
+    (f.batchBuffer = 0 →
+      (∃ s, Reach0 (clsOf e) cfg.R cfg.K s0 s ∧ s.consDone = true) ∧
+      ∀ s, Reach0 (clsOf e) cfg.R cfg.K s0 s → s.consDone = true → Final s) := by
+  obtain ⟨_, _, hBe, hK, hW, _, _, hR, _, _⟩ := flags_config f input cfg hc
+  intro s0 ls ms ig Final
+  have key : ∀ B s, Reach (clsOf e) cfg.R B cfg.K s0 s → s.consDone = true → Final s := by
+    intro B s hr hd
+    obtain ⟨h1, h2, h3⟩ := cli_exit_code e cfg.R B cfg.K cfg.W cfg.batch hW srcs timer hnp hr hd
+    have hr' := hr
+    simp only [s0] at hr'
+    rw [scannedInputs_eq] at hr'
+    obtain ⟨_, _, g3, g4, g5, _⟩ := pipeline_final_classified e cfg.R B cfg.K cfg.W cfg.batch hW _ timer hnp hr' hd
+    exact ⟨h1, by rw [g3, g4, g5], h3⟩
+  refine ⟨fun hB => ⟨?_, fun s hr hd => key _ s hr hd⟩, fun hB => ⟨?_, fun s hr hd => ?_⟩⟩
+  · exact pipeline_reaches_end (clsOf e) hR (by omega) (by omega) _ s0 s0 .refl (Nat.le_refl _)
+  · exact pipeline_unbuffered_reaches_end (clsOf e) hR (by omega) cfg.W _ _ s0 .refl (Nat.le_refl _)
+  · exact key 1 s (reach0_reach (by simp [s0, init]) hr).2 hd
+
+/-! ## Reader concurrency (`--readers`) -/
+
+/-- In every reachable state at most `R` reader goroutines are running (sources `active`): the semaphore bound of
+    `OpenFilesToChan`, for every schedule. -/
+theorem pipeline_reader_bound (cls : α → Cls) (R B K W : Nat) (inputs : List (List (List α))) {s : St α}
+    (hr : Reach cls R B K (init inputs W) s) : activeCount s ≤ R :=
+  activeCount_reach hr (by rw [activeCount_init]; omega)
+
+/-- … and the bound is attained: a state with `min R n` readers running at the same time is reachable (the spawner
+    starts goroutines until the semaphore is full or the file names run out) – so `--readers` is exactly the number
+    of files read concurrently when there are enough files (the `rdopen` op observes this number on the real code). -/
+theorem pipeline_readers_saturate (cls : α → Cls) (R B K W : Nat) (inputs : List (List (List α))) :
+    ∃ s, Reach cls R B K (init inputs W) s ∧ activeCount s = min R inputs.length := by
+  refine ⟨started inputs W (min R inputs.length), started_reach cls R B K W inputs _ (Nat.min_le_left _ _) (Nat.min_le_right _ _), ?_⟩
+  rw [activeCount_started]; omega
 
 /-! ## The source the models were written against (translator tie, `harness/extract/c01.go`) -/
 
